@@ -576,6 +576,10 @@ func (k Keeper) BorrowAsset(ctx sdk.Context, addr string, lendID, pairID uint64,
 	if AmountIn.Denom != cAsset.Denom {
 		return types.ErrBadOfferCoinType
 	}
+	// the collateral of a pair is the asset of the lend position it is borrowed against
+	if lendPos.AssetID != pair.AssetIn {
+		return types.ErrBadOfferCoinType
+	}
 
 	minUSDVal, _ := sdk.NewDecFromStr(types.DollarOneValue)
 	loanValue, err := k.Market.CalcAssetPrice(ctx, pair.AssetOut, loan.Amount)
